@@ -274,6 +274,118 @@ def quad_goals(case, out, e_out):
     return gs, skipped
 
 
+# ------------------------------------------------------------------------------------------------ dipole correspondence
+PRE_B = """From Coq Require Import Reals Lra.
+From Interval Require Import Tactic.
+From Cheetah Require Import Bmadx.Coords Bmadx.DriftX Bmadx.Tdc Bmadx.BendX Bmadx.BendXProofs Bmadx.BendXTac.
+Open Scope R_scope."""
+FRINGE_AT = {"both": (True, True), "entrance": (True, False), "exit": (False, True), "neither": (False, False)}
+
+
+def gen_bcase(rng, k):
+    """Dipole cases for the Coq correspondence: bend angles of both signs, +-(0.02..0.6) rad (exit-position branch c1) and +-(1.6..2.6) rad
+    (branch c2, |angle + phi1| >= pi/2), edge angles, gap/fint with gap_exit != gap and fint_exit != fint in half of the cases, tilt,
+    the four fringe_at variants, energies few MeV..GeV, energy offsets 0 and up to +-0.05."""
+    L = round(rng.uniform(0.05, 1.5), 3)
+    sgn = 1 if (k // 2) % 2 == 0 else -1
+    ang = round(sgn * (rng.uniform(1.6, 2.6) if k % 2 else rng.uniform(0.02, 0.6)), 3)
+    gap = round(rng.uniform(0.0, 0.05), 3)
+    fi = rng.choice([0.0, 0.5, round(rng.uniform(0, 0.7), 2)])
+    same = rng.random() < 0.5
+    kw = {"length": L, "angle": ang, "dipole_e1": rng.choice([0.0, round(rng.uniform(-0.3, 0.3), 3)]),
+          "dipole_e2": rng.choice([0.0, round(rng.uniform(-0.3, 0.3), 3)]),
+          "tilt": rng.choice([0.0, round(rng.uniform(-0.8, 0.8), 3), math.pi / 2]),
+          "gap": gap, "gap_exit": gap if same else round(rng.uniform(0.0, 0.05), 3),
+          "fringe_integral": fi, "fringe_integral_exit": fi if same else round(rng.uniform(0, 0.7), 2),
+          "fringe_at": ["both", "both", "entrance", "exit", "neither", "both"][(k // 4) % 6]}
+    E0 = gen_energy(rng) if k % 3 else round(10 ** rng.uniform(6.3, 7.5), -3)
+    parts = []
+    for _ in range(rng.randint(1, 2)):
+        p = gen_particle(rng)
+        p[5] = rng.choice([0.0, rng.uniform(-0.05, 0.05), rng.uniform(-0.05, 0.05)])
+        parts.append(p)
+    return {"spec": {"cls": "Dipole", "kw": kw}, "E0": E0, "particles": parts, "frac": round(rng.uniform(0.1, 0.9), 2)}
+
+
+def bend_masks(kw, p, E0):
+    """the branches Dipole._bmadx_body takes for this particle, computed in float64 along the lines of the code: (sel, quadrant) as Coq
+    terms, or None when the particle sits within 1e-9 of a branch edge (unspecified there: the Coq model compares exact reals)"""
+    m = m_eV()
+    L, ang, tilt = kw["length"], kw["angle"], kw["tilt"]
+    fen, _ = FRINGE_AT[kw.get("fringe_at", "both")]
+    p0c = math.sqrt(E0 * E0 - m * m)
+    en = E0 + p[5] * p0c
+    pz = (math.sqrt(en * en - m * m) - p0c) / p0c
+    s, c = math.sin(tilt), math.cos(tilt)
+    x, px, y, py = p[0] * c + p[2] * s, p[1] * c + p[3] * s, -p[0] * s + p[2] * c, -p[1] * s + p[3] * c
+    g = ang / L
+    if fen:
+        e, fi, hg = kw["dipole_e1"], kw["fringe_integral"], 0.5 * kw["gap"]
+        px = px + x * g * math.tan(e)
+        py = py + y * (-g * math.tan(e - 2 * fi * hg * g * (1 + math.sin(e) ** 2) / math.cos(e)))
+    rad = (1 + pz) ** 2 - py ** 2
+    if rad <= 0:
+        return None
+    n = math.sqrt(rad)
+    if abs(px / n) >= 1 - 1e-9:
+        return None
+    ph = math.asin(px / n)
+    gp = g / n
+    sc = math.sin(ang) / ang
+    cc = -0.5 * (math.sin(ang / 2) / (ang / 2)) ** 2
+    al = 2 * (1 + g * x) * math.sin(ang + ph) * L * sc - gp * ((1 + g * x) * L * sc) ** 2
+    t1 = x * math.cos(ang) + L ** 2 * g * cc
+    t3 = math.cos(ang + ph)
+    r2 = t3 ** 2 + gp * al
+    if r2 < 0:
+        return None
+    t2 = math.sqrt(r2)
+    temp = abs(ang + ph)
+    if abs(temp - math.pi / 2) < 1e-9 or abs(t2 + t3) < 1e-9:
+        return None
+    sel = temp < math.pi / 2
+    x2 = t1 + al / (t2 + t3) if sel else t1 + (t2 - t3) / gp
+    u = x2 - L ** 2 * g * cc - x * math.cos(ang)
+    v = -L * sc - x * math.sin(ang)
+    lc = math.hypot(u, v)
+    if lc == 0 or abs(u) < 1e-9 * lc or (u < 0 and abs(v) < 1e-9 * lc):
+        return None
+    qd = "Qright" if u > 0 else ("Qleft_up" if v >= 0 else "Qleft_down")
+    th = 2 * (ang + ph - math.pi / 2 - math.atan2(v, u))
+    if abs(th) < 1e-9:
+        return None
+    return ("true" if sel else "false"), qd
+
+
+def bend_goals(case, out, e_out):
+    """one goal for the returned energy + one goal per particle: the six coordinates of Dipole._track_bmadx vs the Coq model
+    Bmadx/BendX.v bend_bmadx_track.  Tolerance 2^-36 * cnd * (|observed| + scale), cnd = E0^2/(E0^2 - m^2) (rounding of p0c), scale = the
+    size of the terms that are added: 2e-3 (1+L) (1+|g| tan-terms) transverse, L for tau, 1 for delta; float64 errors are a few 1e-16 * L."""
+    kw, E0, parts = case["spec"]["kw"], case["E0"], case["particles"]
+    m = m_eV()
+    L = kw["length"]
+    cnd = E0 * E0 / (E0 * E0 - m * m)
+    gs = [(f"Rabs (drift_bmadx_energy {dyadic(E0)} {dyadic(m)} - {dyadic(e_out)}) <= {dyadic(REL_Q * cnd * E0)}", TAC)]
+    fen, fex = FRINGE_AT[kw.get("fringe_at", "both")]
+    b = "(mkbend " + " ".join(dyadic(kw[f]) for f in ("length", "angle", "dipole_e1", "dipole_e2", "fringe_integral", "fringe_integral_exit",
+                                                       "gap", "gap_exit", "tilt")) + ")"
+    st = 2e-3 * (1 + L) * (1 + abs(kw["angle"]))
+    skipped = 0
+    for p, o in zip(parts, out):
+        mk = bend_masks(kw, p, E0)
+        if mk is None:
+            skipped += 1
+            continue
+        v = "(mkc " + " ".join(dyadic(c) for c in p[:6]) + ")"
+        cj = []
+        for acc, j, scale in (("cx", 0, st), ("cpx", 1, st), ("cy", 2, st), ("cpy", 3, st), ("ctau", 4, L), ("cdelta", 5, 1.0)):
+            cj.append(f"Rabs ({acc} o - {dyadic(o[j])}) <= {dyadic(REL_Q * cnd * (abs(o[j]) + scale))}")
+        stmt = (f"let o := bend_bmadx_track {'true' if fen else 'false'} {'true' if fex else 'false'} {b} {dyadic(E0)} {dyadic(m)} {v} in "
+                + " /\\ ".join(cj))
+        gs.append((stmt, f"bendx_goal {mk[0]} {mk[1]}."))
+    return gs, skipped
+
+
 # ------------------------------------------------------------------------------------------------ main
 def run_case(run, case):
     """all implementation-level oracles on one case; returns a failure dict or None"""
